@@ -3,7 +3,7 @@
    uni (Unicode digit/space map of int()) are universally quantified oracles. *)
 From Coq Require Import List NArith ZArith Bool.
 Import ListNotations.
-Require Import Verif.Lib.Wire Verif.Lib.Utf8 Verif.Lib.C09Base Verif.Gen.Facts_C09 Verif.Model.C09 Verif.Proofs.C09.
+Require Import Verif.Lib.Wire Verif.Lib.Text Verif.Lib.Utf8 Verif.Lib.C09Base Verif.Gen.Facts_C09 Verif.Model.C09 Verif.Proofs.C09 Verif.Proofs.C09_rt.
 
 (* "no cookie at all is accepted unless its digest field is exactly the keyed digest of its
    other fields": for EVERY cookie text, configuration, address and clock *)
@@ -69,3 +69,41 @@ Theorem C09_cookie_attributes_forget : forall H dsz uni c r st k hs,
   attrs_ok c r None k = true /\ ck_value k = None.
 Proof. exact cookie_attributes_forget. Qed.
 Print Assumptions C09_cookie_attributes_forget.
+
+(* what was issued parses back: for every encoded user id (ASCII, as all three encoders produce), valid
+   token list, address, secret, algorithm and issue time below 2^32.  Premises on the hash oracle:
+   its output has the digest length and does not start with the quote character (it is hex). *)
+Theorem C09_ticket_roundtrip : forall H dsz uni alg ip t sec enc toks ud,
+  (forall a x, length (H a x) = (dsz a * digest_mult)%nat) ->
+  (forall a x, exists c r, H a x = c :: r /\ c <> strip_ch) ->
+  (t < 4294967296)%N -> is_ascii enc = true ->
+  Forall (fun tk => valid_token tk = true) toks ->
+  ud <> [] -> ~ In bang ud -> last ud 0%N <> strip_ch ->
+  parse_ticket H dsz uni sec (cookie_value H alg ip t sec enc toks ud) ip alg
+  = POk (Z.of_N t) enc (match toks with [] => [[]] | _ => toks end) ud.
+Proof. exact ticket_roundtrip. Qed.
+Print Assumptions C09_ticket_roundtrip.
+
+(* a ticket issued by remember() and presented to a helper with the same secret, algorithm and effective
+   address yields exactly the issued identity -- user-id TYPE preserved (int / text / bytes) -- iff
+   now' <= issue + timeout (or no timeout is configured), and nothing afterwards *)
+Theorem C09_identify_roundtrip : forall H dsz uni c r r' u ma toks hs k v,
+  (forall a x, length (H a x) = (dsz a * digest_mult)%nat) ->
+  (forall a x, exists c r, H a x = c :: r /\ c <> strip_ch) ->
+  (0 <= now r < 4294967296)%Z -> uval_ok u ->
+  remember H c r u ma toks = Some hs -> In k hs -> ck_value k = Some v ->
+  cookie r' = Some v -> eff_ip c r' = eff_ip c r ->
+  identify_pre H dsz uni c r' =
+  match spec_issued_identity c (Z.to_N (now r)) u (match toks with [] => [[]] | _ => toks end) (now r') with
+  | Some (ts, u', tk) => ISome ts u' tk (userid_typename ++ tag_of u)
+  | None => INone
+  end.
+Proof. exact identify_roundtrip. Qed.
+Print Assumptions C09_identify_roundtrip.
+
+Theorem C09_identify_boundary : forall c t0 u toks t,
+  timeout c = Some t -> (0 < t)%Z ->
+  spec_issued_identity c t0 u toks (Z.of_N t0 + t) = Some (Z.of_N t0, u, toks)
+  /\ spec_issued_identity c t0 u toks (Z.of_N t0 + t + 1) = None.
+Proof. exact identify_boundary. Qed.
+Print Assumptions C09_identify_boundary.
